@@ -16,7 +16,8 @@
   PARTIAL (stated, not proved):
    * sufficiency of the float error constants (maxDeterminantError, detErrorMultiplier, the cos / sin²
      error formulas, 3.046875·ε): hypotheses of the `…_given_error_bound` theorems; searched by the oracle.
-   * `sos_global` (one perturbation per point serves all triples of a finite point set): `def … : Prop`.
+   (`sos_global` — one perturbation per point serves all triples of a finite point set — is stated here as
+     `def … : Prop` and PROVED in `Properties/C02_Global.lean`: `sos_global_holds`.)
 -/
 import S2Proofs.PredLemmas
 import S2Proofs.F64Order
@@ -228,7 +229,7 @@ def rankIn (pts : List IV3) (p : IV3) : ℕ := (pts.filter fun q => gtI p q).len
 /-- the point `p` carrying the perturbation of rank `r`:  (dZ, dY, dX) = (ε^(8^r), ε^(2·8^r), ε^(4·8^r)) -/
 def perturbRank (p : IV3) (r : ℕ) (ε : ℝ) : ℝ × ℝ × ℝ := perturb p ε (4 * 8 ^ r) (2 * 8 ^ r) (8 ^ r)
 
-/-- STRETCH GOAL, NOT PROVED (kept as a statement): global consistency of the symbolic perturbation.
+/-- PROVED in `Properties/C02_Global.lean` (`sos_global_holds`; statement kept here): global consistency of the symbolic perturbation.
     For every finite set of distinct points there is ONE perturbation per point (depending only on the rank
     of the point in the set) such that for all small ε the answers of the exact decision on ALL triples are
     the orientation signs of the genuinely perturbed points — hence no set of answers contradicts a real point
